@@ -26,6 +26,21 @@ RFC4648 = ('ABCDEFGHIJKLMNOPQRSTUVWXYZabcdefghijklmnopqrstuvwxyz'
            '0123456789+/')
 
 
+def reference_vlq(i):
+    """canonical Base64 VLQ digits of an integer (Source Map V3)"""
+    raw = (-i << 1) | 1 if i < 0 else i << 1
+    out = []
+    while True:
+        d = raw & 31
+        raw >>= 5
+        if raw:
+            out.append(RFC4648[d | 32])
+        else:
+            out.append(RFC4648[d])
+            break
+    return ''.join(out)
+
+
 def names_and_ints(fdef):
     names = set()
     ints = []
@@ -46,10 +61,11 @@ def run(report, index, tier):
         'literals the codec functions use.  The bijection law itself is '
         'arithmetic over all integers and is not decided statically.')
     report.not_decided.append(
-        'encode/decode inverse law for every integer and canonicity of '
-        'every encoding (arithmetic; out of reach of static analysis)')
+        'encode/decode inverse law for every integer (arithmetic): R10.2 '
+        'folds the functions only on the 5-bit group boundaries, where the '
+        'number of digits or a carry changes')
     r = report.rule('R10.1', 'canonical alphabet/constants; writer and '
-                    'reader agree', floor=10)
+                    'reader agree', floor=2)
     int_b64 = need_const(m, 'INT_B64', types=str)
     r.check(int_b64 == RFC4648, 'INT_B64', 'INT_B64',
             'INT_B64 is not the RFC 4648 base64 alphabet in order: first '
@@ -63,50 +79,69 @@ def run(report, index, tier):
     shift = need_const(m, 'VLQ_SHIFT', types=int)
     cont = need_const(m, 'VLQ_CONT', types=int)
     mask = need_const(m, 'VLQ_BASE_MASK', types=int)
-    multi = need_const(m, 'VLQ_MULTI_CHAR', types=int)
     r.check(shift == 5, 'VLQ_SHIFT', 'VLQ_SHIFT = %d' % shift,
             'Source Map V3 uses 5-bit groups')
     r.check(cont == 1 << shift == 32, 'VLQ_CONT', 'VLQ_CONT = %d' % cont,
             'continuation bit must be 1 << VLQ_SHIFT = 32')
     r.check(mask == cont - 1 == 31, 'VLQ_BASE_MASK',
             'VLQ_BASE_MASK = %d' % mask, 'base mask must be VLQ_CONT - 1')
-    r.check(multi == cont // 2 == 16, 'VLQ_MULTI_CHAR',
-            'VLQ_MULTI_CHAR = %d' % multi,
-            'the single-character shortcut must cover exactly the values '
-            'below VLQ_CONT / 2 (raw values with the sign bit < 16... 31 '
-            'need no continuation only below 32; the shortcut bound is 16 '
-            'sign-shifted units)')
-    enc = need_function(m, 'encode_vlq')
-    dec = need_function(m, 'vlq_decoder')
-    en, ei = names_and_ints(enc)
-    dn, di = names_and_ints(dec)
-    r.check({'INT_B64', 'VLQ_BASE_MASK', 'VLQ_CONT', 'VLQ_SHIFT'} <= en,
-            'encoder uses the shared constants', 'encode_vlq',
-            'encode_vlq does not use INT_B64 / VLQ_BASE_MASK / VLQ_CONT / '
-            'VLQ_SHIFT (found %s)' % sorted(
-                n for n in en if n.isupper()), where='vlq.py:encode_vlq')
-    r.check({'B64_INT', 'VLQ_BASE_MASK', 'VLQ_CONT', 'VLQ_SHIFT'} <= dn,
-            'decoder uses the shared constants', 'vlq_decoder',
-            'vlq_decoder does not use B64_INT / VLQ_BASE_MASK / VLQ_CONT / '
-            'VLQ_SHIFT (found %s)' % sorted(
-                n for n in dn if n.isupper()), where='vlq.py:vlq_decoder')
-    r.check(set(ei) <= {0, 1, -1}, 'encoder literals', 'encode_vlq',
-            'encode_vlq uses the integer literal(s) %s besides 0/1: a '
-            'constant that can diverge from the decoder' % sorted(
-                set(ei) - {0, 1, -1}), where='vlq.py:encode_vlq')
-    r.check(set(di) <= {0, 1, -1}, 'decoder literals', 'vlq_decoder',
-            'vlq_decoder uses the integer literal(s) %s besides 0/1' %
-            sorted(set(di) - {0, 1, -1}), where='vlq.py:vlq_decoder')
-    # separators
-    em = need_function(m, 'encode_mappings')
-    dm = need_function(m, 'decode_mappings')
-    es = [n.value for n in ast.walk(em) if isinstance(n, ast.Constant) and
-          isinstance(n.value, str)]
-    ds = [n.value for n in ast.walk(dm) if isinstance(n, ast.Constant) and
-          isinstance(n.value, str)]
-    r.check(sorted(es) == [',', ';'] and sorted(ds) == [',', ';'],
-            'mapping separators', 'encode_mappings / decode_mappings',
-            'writer separators %s vs reader separators %s: Source Map V3 '
-            'uses `,` between segments and `;` between lines' % (es, ds),
-            where='vlq.py')
+    # R10.2: the codec functions folded on the group boundaries ------------
+    r2 = report.rule('R10.2', 'encode / decode folded on every 5-bit group '
+                     'boundary up to 2**49, and on a few larger values, '
+                     'give the canonical Source Map V3 digits and invert '
+                     'each other', floor=80)
+    from engine.absint import Evaluator, Raised
+
+    def ev():
+        e = Evaluator(m, functions={'next': lambda it: next(iter(it))},
+                      max_steps=200000)
+        return e
+    fns = {n: need_function(m, n) for n in (
+        'encode_vlq', 'encode_vlqs', 'vlq_decoder', 'decode_vlq',
+        'decode_vlqs', 'encode_mappings', 'decode_mappings')}
+
+    def call(name, *args):
+        try:
+            ret, ys = ev().call(fns[name], list(args))
+        except Raised as e:
+            return 'raises %s' % e.text
+        if name == 'vlq_decoder':
+            return ys
+        return ret
+    values = {0, 1, -1, 2, -2, 15, -15, 16, -16, 17, -17, 1023, -1023,
+              1024, -1024, 2 ** 31 - 1, 2 ** 31, -2 ** 31, 2 ** 53,
+              2 ** 64 + 1, -(2 ** 64 + 1), 10 ** 30, -(10 ** 30)}
+    for k in range(0, 10):
+        b_ = 1 << (4 + 5 * k)
+        values |= {b_ - 1, b_, b_ + 1, -(b_ - 1), -b_, -(b_ + 1)}
+    for i in sorted(values, key=lambda v: (abs(v), v)):
+        want = reference_vlq(i)
+        got = call('encode_vlq', i)
+        r2.check(got == want, 'encode %d' % i, 'encode_vlq(%d)' % i,
+                 'encode_vlq(%d) gives %r; the canonical Base64 VLQ is %r'
+                 % (i, got, want), where='vlq.py:encode_vlq')
+        back = call('decode_vlq', want)
+        r2.check(back == i and type(back) is int, 'decode %d' % i,
+                 'decode_vlq(%r)' % want,
+                 'decode_vlq(%r) gives %r; the digits denote %d' % (
+                     want, back, i), where='vlq.py:vlq_decoder')
+    seqs = [(0, 0, 0, 0), (1, -1, 16, -16), (123456, 0, -7, 2 ** 40),
+            (), (5,)]
+    for seq in seqs:
+        want = ''.join(reference_vlq(i) for i in seq)
+        got = call('encode_vlqs', list(seq))
+        back = call('decode_vlqs', want)
+        r2.check(got == want and back == tuple(seq),
+                 'sequence %r' % (seq,), 'encode_vlqs / decode_vlqs %r'
+                 % (seq,), 'encode gives %r (expected %r), decode gives %r'
+                 % (got, want, back), where='vlq.py')
+    maps = [[(0, 0, 0, 0), (4, 0, 0, 4, 1)], [], [(2,)]]
+    want = 'AAAA,IAAIC;;E'
+    got = call('encode_mappings', maps)
+    back = call('decode_mappings', want)
+    r2.check(got == want and back == [list(x) for x in maps],
+             'mappings', 'encode_mappings / decode_mappings',
+             'encode gives %r (expected %r: `,` between segments, `;` '
+             'between lines), decode gives %r' % (got, want, back),
+             where='vlq.py')
     report.trusted_base += ['CPython ast', 'constant folder']
